@@ -21,6 +21,7 @@ after it must still behave as first loads.
 """
 
 import hashlib
+import io
 import json
 import os
 import re
@@ -72,6 +73,7 @@ SCHEMA = """<schema>
     <multikey name="k" datatype="string"/>
   </sectiontype>
   <multikey name="k" datatype="string"/>
+  <key name="zzov" datatype="string"/>
   <multisection type="st" name="*" attribute="s"/>
 </schema>
 """
@@ -476,7 +478,8 @@ def generate(rng, tier, index):
                 if rng.random() < 0.5 else {})), "fault": None,
             # one ConfigLoader instance for the whole sequence of loads, or
             # ZConfig.loadConfig (a new loader per load)
-            "reuse_loader": rng.random() < 0.5}
+            "reuse_loader": rng.random() < 0.5,
+            "entry": rng.choice(["url", "url", "file", "override"])}
     incs = includes_of(steps)
     if incs and rng.random() < 0.25:
         j = rng.randint(1, len(incs))
@@ -495,9 +498,21 @@ def observe(cfg):
     return {"k": list(cfg.k), "s": [list(s.k) for s in cfg.s]}
 
 
-def load(schema, top, loader=None):
-    if loader is not None:
+def load(schema, top, loader=None, entry="url", store=None):
+    """entry: 'url' | 'file' (the top resource handed over as an open text
+    stream with its URL) | 'override' (one command-line override for a key
+    the text never sets: the loader and matchers of ZConfig.cmdline read the
+    text; the namespace is the same)."""
+    if entry == "file":
+        f = io.StringIO((store or {}).get(top, ""))
+        if loader is not None:
+            cfg, _h = loader.loadFile(f, top)
+        else:
+            cfg, _h = ZConfig.loadConfigFile(schema, f, top)
+    elif loader is not None:
         cfg, _h = loader.loadURL(top)
+    elif entry == "override":
+        cfg, _h = ZConfig.loadConfig(schema, top, ["zzov=$not-expanded"])
     else:
         cfg, _h = ZConfig.loadConfig(schema, top)
     return cfg
@@ -544,12 +559,13 @@ def compare(pred, real, faulty=False):
     return bad
 
 
-def run_load(w, schema, store, top, name, faults=(), loader=None):
+def run_load(w, schema, store, top, name, faults=(), loader=None,
+             entry="url"):
     w.store = store
     w.begin_op(name, faults)
 
     def fn():
-        cfg = load(schema, top, loader)
+        cfg = load(schema, top, loader, entry, store)
         return {"ok": True, "values": observe(cfg)}
     try:
         o = fn()
@@ -615,7 +631,8 @@ def execute(plan):
                            "kind": fault["kind"]}]
                 this_pred = model_predict(steps, env,
                                           stop_at_include=fault["at"])
-            o, fired = run_load(w, schema, st, url, which, faults, loader)
+            o, fired = run_load(w, schema, st, url, which, faults, loader,
+                                plan.get("entry", "url"))
             out["evaluations"] += 1
             if fired:
                 out["fired"][fault["kind"]] = out["fired"].get(
